@@ -135,7 +135,13 @@ func VerifC15_Nested() {
 	outerModel := parent.Clone()
 	outer := NewStore(parent)
 	vWrite("a", outer, outerModel, 0)
-	inner := outer.CacheWrap().(types.CacheKVStore)
+	var inner types.CacheKVStore
+	if zz.Choice("nested_with_tracing", 2) == 1 {
+		// as cachemulti nests its per-transaction cache when a tracer is set
+		inner = outer.CacheWrapWithTrace(&vTraceRec{}, types.TraceContext{"h": 1}).(types.CacheKVStore)
+	} else {
+		inner = outer.CacheWrap().(types.CacheKVStore)
+	}
 	innerModel := outerModel.Clone()
 	vWrite("b", inner, innerModel, 1)
 	// inner sees its own view, outer does not see inner's pending writes
